@@ -3,8 +3,9 @@
 # store it under /verif/seeded/<name>/ and run the quick check of <PROP> (and optionally others) against it.
 set -u
 export GOFLAGS=-mod=mod GOPROXY=off GOSUMDB=off GOTOOLCHAIN=local
+VERIF="$(cd "$(dirname "$0")" && pwd)"   # the live /verif, or a `vp run` snapshot of it
 name="$1"; prop="$2"; shift 2
-wt="/tmp/seed-$name"; out="/verif/seeded/$name"
+wt="/tmp/seed-$name"; out="$VERIF/seeded/$name"
 mkdir -p "$out"
 if [ -d "$wt" ]; then
   # first evaluation: take the change, the demonstration and the write-up out of the agent's worktree
@@ -22,7 +23,7 @@ else
 fi
 demodir="./$(dirname "$(echo "$demos" | head -1)")"
 # evaluate on a fresh worktree of /repo's CURRENT head (the agent's worktree may predate a fix commit)
-ev="/tmp/seedeval-$name"
+ev="/tmp/seedeval-$name-$$"
 git -C /repo worktree remove --force "$ev" >/dev/null 2>&1; rm -rf "$ev"
 git -C /repo worktree add -q --detach "$ev" HEAD || exit 2
 cd "$ev" || exit 2
@@ -40,13 +41,13 @@ echo "seeded $name: suite with change: $suite_with; demo with change: $demo_with
 valid=false; [ "$suite_with" = pass ] && [ "$demo_with" = fail ] && [ "$demo_without" = pass ] && valid=true
 results=""
 for p in $prop "$@"; do
-  log="$(VERIF_REPO="$wt" /verif/check "$p" quick -no-evidence -verif /tmp/seedout-$name 2>&1)"; rc=$?
+  log="$(VERIF_REPO="$wt" "$VERIF/check" "$p" quick -no-evidence -verif /tmp/seedout-$name-$$ 2>&1)"; rc=$?
   inv="$(echo "$log" | grep '^invariant' | head -2 | cut -c1-300 | tr '\n' ' ' | sed 's/"/\\"/g')"
   echo "  check $p quick: exit $rc  $inv"
   results="$results{\"check\":\"$p quick\",\"exit\":$rc,\"invariants\":\"$inv\"},"
 done
-cd /verif
-git -C /repo worktree remove --force "$ev" >/dev/null 2>&1
+cd "$VERIF"
+git -C /repo worktree remove --force "$ev" >/dev/null 2>&1; rm -rf "/tmp/seedout-$name-$$"
 [ -n "${SEEDED_NO_META:-}" ] && exit 0
 python3 - "$out/meta.json" "$name" "$prop" "$valid" "$suite_with" "$demo_with" "$demo_without" "$demodir" "[${results%,}]" <<'PY'
 import json, sys
